@@ -25,7 +25,7 @@ impl DetectProp for C09 {
             120
         }
     }
-    fn gen(&self, rng: &mut Rng, corpus: &[(String, Vec<u8>)], _idx: usize) -> Case {
+    fn gen(&self, rng: &mut Rng, corpus: &[(String, Vec<u8>)], idx: usize) -> Case {
         let mut c = structured_case(rng, corpus);
         c.sett.incl.clear();
         if rng.chance(3, 4) {
@@ -33,6 +33,9 @@ impl DetectProp for C09 {
         }
         if c.bytes.len() > 4000 {
             c.bytes.truncate(4000);
+        }
+        if idx % 3 == 1 {
+            c = multi_candidate_case(rng);
         }
         c
     }
